@@ -115,6 +115,15 @@ CONFIG["C18"] = dict(
     trusted_base=["unicode.IsDigit table (shared with C04)", "Go map semantics modelled as list membership"],
 )
 
+CONFIG["C05"] = dict(
+    level_text="Kernel-checked Lean theorems (Props/C05.lean): the signal comparator is a strict weak order that separates distinct (start, multiplexer value) keys, the sort returns a sorted permutation, and sorted permutations with pairwise distinct keys are unique — so the canonical order does not depend on the input order nor on the sorting algorithm. The denotation (every field as written, one warning per dangling reference, nothing attached) is decided on every run: files of the compilable class are generated together with the database they denote (computed by the generator, independently of parser and compiler), and the original plus its class permutations (message order, signal order, node order, metadata order) are compiled by the real generate.Compile and by the Lean model and compared with that expected database and warning multiset.",
+    level_note="Partial proof: invariance under metadata-line permutations and 'compile = denote' are not proved as theorems (decided per run against the independent expected database). sort.Slice is trusted to return a sorted permutation. The parser model of C04 is reused.",
+    level="proof",
+    trivial=r"^(parse-error|v=- ;; W -)$",
+    rule="files of DESIGN.md 4.2 from harness/internal/ops/compile.go, each rendered in original and permuted orders; non-trivial = the file compiles to a non-empty database",
+    trusted_base=["sort.Slice (stdlib) assumed to return a sorted permutation when the comparator is a strict weak order", "expected databases are computed by the generator from its semantic description"],
+)
+
 PRE_PROVE = {}
 def _unicode_tie(work, impl):
     """the committed unicode tables equal what the toolchain's unicode package says now"""
